@@ -22,9 +22,11 @@
 
   Modelled as they are in the unchanged tree (DESIGN.md §6): F6 (only `len(Data())` credited back),
   F7 (`headerContinuation.complete` forces END_STREAM), F14 (frames are split when queued, not when
-  sent), F21 (encode at processing time, send at release time), F51 (`applySettings`: the queues are
-  scanned after every SETTINGS_INITIAL_WINDOW_SIZE value of a frame, not once per frame); zero-cost
-  frames wait behind a negative stream window (`0 > windowSize`).
+  sent), F21 (encode at processing time, send at release time); zero-cost frames wait behind a
+  negative stream window (`0 > windowSize`).  F51 is repaired in the tree (`relay.applySettings`: a
+  SETTINGS frame is read completely, then the value in force of SETTINGS_INITIAL_WINDOW_SIZE — its
+  last occurrence — is applied: one scan of the queues per frame); `applySettings` is that code,
+  `applyEach` over the whole frame the loop it replaced.
 -/
 import FwdVerif.Lib.Wire
 
@@ -332,19 +334,41 @@ def settingHeaderTableSize : Nat := 1
 def settingInitialWindowSize : Nat := 4
 def settingMaxFrameSize : Nat := 5
 
-/-- the `ForeachSetting` loop acting on the peer relay `o`; `k` counts the scans made so far -/
-def applySettings (o : Dir α) (ord : Nat → List Nat) : Nat → List (Nat × Nat) → Dir α × List (QFrame α)
+/-- a list of settings applied value by value, in order, to the peer relay `o`; `k` counts the
+    scans of the queues made so far.  This is the loop of `relay.applySettings` over the entries it
+    acts on (`inForce`); run over a WHOLE frame it is the `ForeachSetting` loop the code had before
+    the repair of F51, which scanned the queues under every SETTINGS_INITIAL_WINDOW_SIZE value. -/
+def applyEach (o : Dir α) (ord : Nat → List Nat) : Nat → List (Nat × Nat) → Dir α × List (QFrame α)
   | _, [] => (o, [])
   | k, (id, v) :: rest =>
     if id = settingInitialWindowSize then
       let r := o.setInitWin (ord k) v
-      let r' := applySettings r.1 ord (k + 1) rest
+      let r' := applyEach r.1 ord (k + 1) rest
       (r'.1, r.2 ++ r'.2)
     else if id = settingMaxFrameSize then
-      applySettings { o with maxFrame := v } ord k rest
+      applyEach { o with maxFrame := v } ord k rest
     else if id = settingHeaderTableSize then
-      applySettings { o with tableSize := v } ord k rest
-    else applySettings o ord k rest
+      applyEach { o with tableSize := v } ord k rest
+    else applyEach o ord k rest
+
+/-- the entries of a SETTINGS frame `relay.applySettings` acts on, in frame order: a value of
+    SETTINGS_INITIAL_WINDOW_SIZE or SETTINGS_MAX_FRAME_SIZE is skipped when the identifier occurs
+    again later in the frame (the closure `inForce(i)`: only the LAST value is in force once the
+    frame is processed, RFC 7540 §6.5.3); every SETTINGS_HEADER_TABLE_SIZE value is kept (HPACK has
+    to see the smallest size of the frame, RFC 7541 §4.2), identifiers the relay does not track are
+    kept and ignored by the loop. -/
+def inForce : List (Nat × Nat) → List (Nat × Nat)
+  | [] => []
+  | (id, v) :: rest =>
+    if (id = settingInitialWindowSize ∨ id = settingMaxFrameSize) ∧ rest.any (fun kv => kv.1 == id) then
+      inForce rest
+    else (id, v) :: inForce rest
+
+/-- `relay.applySettings` on the peer relay `o`: the frame is read completely first, then the values
+    in force are applied in frame order — at most one `updateInitialWindowSize`, hence at most one
+    scan of the queues (`ord 0`), under the value that is in force afterwards. -/
+def applySettings (o : Dir α) (ord : Nat → List Nat) (kvs : List (Nat × Nat)) : Dir α × List (QFrame α) :=
+  applyEach o ord 0 (inForce kvs)
 
 /-- `processFrame` on the relay `d` whose peer is `o`.  Returns the two directions and the output. -/
 def process (d o : Dir α) (ord : Nat → List Nat) : Op α → Dir α × Dir α × Out α
@@ -389,7 +413,8 @@ def process (d o : Dir α) (ord : Nat → List Nat) : Op α → Dir α × Dir α
     let r := o.windowUpdate (ord 0) sid inc
     (d, r.1, { back := r.2 })
   | .settings kvs =>
-    let r := applySettings o ord 0 kvs
+    -- `r.peer.applySettings(settings)`, then the frame is forwarded verbatim
+    let r := applySettings o ord kvs
     (d, r.1, { back := r.2, fwdDirect := [.settings kvs] })
   | .settingsAck => (d, o, { fwdDirect := [.settingsAck] })
   | .ping ack data => (d, o, { fwdDirect := [.ping ack data] })
